@@ -224,6 +224,7 @@ class Run:
         for k in self.known_hits:
             print("KNOWN-FINDING: property=%s %s" % (self.prop, k))
         if self.violations:
+            self.violations.sort(key=lambda v: 1 if v[1].get("no_failing_input_found") else 0)
             for what, rep in self.violations[:5]:
                 path = write_replay(self.prop, rep)
                 tail = " no-failing-input-found" if rep.get("no_failing_input_found") else ""
